@@ -1452,3 +1452,184 @@ class C14ElementOrder(E2Harness):
             for (i, j, k) in ((0, 1, 'ab'), (0, 2, 'ac'), (1, 2, 'bc')):
                 same = bytes_eq(self.names[i], self.names[j])
                 self.require(ex, same if r[k] == 'Equal' else znot(same), f'cmp({k[0]},{k[1]}) == Equal is not the same as equal item names')
+
+
+# =====================================================================================================
+# C08: element-level checks of the loader (sub-element lookup with version, exclusive choice, multiplicity)
+#      executed on their MIR with the specification's answers symbolic
+# =====================================================================================================
+@register
+class C08Element(ParserHarness):
+    mode = 'multiplicity'        # multiplicity | conflict | find
+    native = ('data', 'n_c08_element')
+    n = 0
+
+    def setup(self, ex):
+        self.fv = z3.BitVec('fileversion', 32)
+        ex.assume(z3.And(self.fv != 0, (self.fv & (self.fv - 1)) == 0, z3.ULT(self.fv, 1 << 21)))
+        self.line = z3.BitVec('line', 64)
+        self.total = z3.BitVec('total', 64)
+        ex.assume(z3.And(z3.UGE(self.line, 1), z3.ULE(self.line, self.total)))
+
+    def parsers(self):
+        ps, pl = self.parser(True), self.parser(False)
+        for p in (ps, pl):
+            p.fields[P_FILEVERSION] = I(self.fv, False, 'u32')
+        return ps, pl
+
+    def pick(self, ex, name, options):
+        """symbolic choice among python values (forks)"""
+        v = z3.BitVec(name, 8)
+        ex.assume(z3.ULT(v, len(options)))
+        self.choices[name] = (v, options)
+        return options[ex.concretize(I(v, False, 'u8'), limit=len(options) + 1)]
+
+    def run(self, ex):
+        self.choices = {}
+        self.setup(ex)
+        et = Agg('ElementType', None, [mk_int(0, 'u16'), mk_int(1, 'u16')])
+        ps, pl = self.parsers()
+        M = ex.models
+        if self.mode == 'multiplicity':
+            f = find_fn(ex.prog, '::check_multiplicity', 'parser.rs')
+            cmode = self.pick(ex, 'container_mode', ['Sequence', 'Choice', 'Bag', 'Mixed'])
+            mult = self.pick(ex, 'multiplicity', [None, 'ZeroOrOne', 'One', 'Any'])
+            self.cmode, self.mult = cmode, mult
+            names = [z3.BitVec(f'existing{i}', 16) for i in range(2)] + [z3.BitVec('new_name', 16)]
+            for v in names:
+                ex.assume(z3.ULT(v, 3))
+            self.names = names
+            M.add(r'^autosar_data_specification::ElementType::get_sub_element_container_mode$', lambda ex_, c, a: Agg('ContentMode', cmode, []), prefer=True)
+            M.rx.insert(0, M.rx.pop())
+            M.add(r'^autosar_data_specification::ElementType::get_sub_element_multiplicity$', lambda ex_, c, a: NONE() if mult is None else some(Agg('ElementMultiplicity', mult, [])), prefer=True)
+            M.rx.insert(0, M.rx.pop())
+            M.add(r'^<ElementMultiplicity as PartialEq>::(eq|ne)$', lambda ex_, c, a: (ex_.deref(a[0]).variant == ex_.deref(a[1]).variant) == c.endswith('eq'), prefer=True)
+            M.rx.insert(0, M.rx.pop())
+            subs = [Agg('ElementContent', 'Element', [mk_element(0, 2, [])]) for _ in range(2)]
+            for s_, nm in zip(subs, names[:2]):
+                raw = s_.fields[0].fields[0].fields[0].cell.v.fields[0]
+                raw.fields[1] = I(nm, False, 'u16')
+            parent_raw = mk_element(0, 1, subs).fields[0].fields[0].cell.v.fields[0]
+            idx = Slice([usize(0)], 0, 1, False)
+            outs = []
+            for p in (ps, pl):
+                r = ex.call(f, [Ref(Cell(p)), I(names[2], False, 'u16'), et, idx, Ref(Cell(parent_raw))])
+                outs.append((r, p))
+            return outs
+        if self.mode == 'conflict':
+            f = find_fn(ex.prog, '::check_element_conflict', 'parser.rs')
+            gmode = self.pick(ex, 'group_mode', ['Sequence', 'Choice', 'Bag', 'Mixed'])
+            self.gmode = gmode
+            la = self.pick(ex, 'len_old', [0, 1, 2])
+            lb = self.pick(ex, 'len_new', [1, 2])
+            a_ = [z3.BitVec(f'old{i}', 64) for i in range(la)]
+            b_ = [z3.BitVec(f'new{i}', 64) for i in range(lb)]
+            for v in a_ + b_:
+                ex.assume(z3.ULT(v, 2))
+            self.old, self.new = a_, b_
+            M.add(r'^autosar_data_specification::ElementType::find_common_group$', lambda ex_, c, a: Agg('GroupType', None, []), prefer=True)
+            M.rx.insert(0, M.rx.pop())
+            M.add(r'^GroupType::content_mode$|^autosar_data_specification::GroupType::content_mode$', lambda ex_, c, a: Agg('ContentMode', gmode, []), prefer=True)
+            M.rx.insert(0, M.rx.pop())
+            M.add(r'^<&\[usize\] as PartialEq<&Vec<usize>>>::eq$', self.m_idx_eq, prefer=True)
+            M.rx.insert(0, M.rx.pop())
+            M.add(r'^core::slice::<impl \[usize\]>::is_empty$', lambda ex_, c, a: ex_.length_of(a[0]) == 0, prefer=True)
+            M.rx.insert(0, M.rx.pop())
+            outs = []
+            for p in (ps, pl):
+                old = Slice([I(v, False, 'usize') for v in a_], 0, la, False)
+                newv = VecV([I(v, False, 'usize') for v in b_])
+                r = ex.call(f, [Ref(Cell(p)), mk_int(1, 'u16'), et, old, Ref(Cell(newv))])
+                outs.append((r, p))
+            return outs
+        # find
+        f = find_fn(ex.prog, '::find_element_in_spec_checked', 'parser.rs')
+        self.listed = z3.Bool('listed_in_some_version')
+        self.mask = z3.BitVec('sub_element_version_mask', 32)
+
+        def find_sub_element(ex_, c, a):
+            ver = a[2]
+            cond = z3.And(self.listed, (self.mask & ver.e) != 0)
+            if ex_.decide(cond):
+                return some(Agg('tuple', None, [Agg('ElementType', None, [mk_int(0, 'u16'), mk_int(2, 'u16')]), VecV([usize(0)])]))
+            return NONE()
+        M.add(r'^autosar_data_specification::ElementType::find_sub_element$', find_sub_element, prefer=True)
+        M.rx.insert(0, M.rx.pop())
+        M.add(r'^autosar_data_specification::ElementType::get_sub_element_version_mask$', lambda ex_, c, a: some(I(self.mask, False, 'u32')), prefer=True)
+        M.rx.insert(0, M.rx.pop())
+        outs = []
+        for p in (ps, pl):
+            r = ex.call(f, [Ref(Cell(p)), mk_int(5, 'u16'), et])
+            outs.append((r, p))
+        return outs
+
+    def replay_vals(self, m):
+        def ch(name):
+            v, opts = self.choices[name]
+            return m.eval(v, model_completion=True).as_long() % len(opts)
+        if self.mode == 'multiplicity':
+            nm = [m.eval(v, model_completion=True).as_long() for v in self.names]
+            return [[0], [ch('container_mode')], [ch('multiplicity')], [1 if nm[2] in nm[:2] else 0]]
+        if self.mode == 'conflict':
+            old = [m.eval(v, model_completion=True).as_long() for v in self.old]
+            new = [m.eval(v, model_completion=True).as_long() for v in self.new]
+            return [[1], [ch('group_mode')], [1 if old != new else 0]]
+        listed = z3.is_true(m.eval(self.listed, model_completion=True))
+        avail = listed and (m.eval(self.mask, model_completion=True).as_long() & m.eval(self.fv, model_completion=True).as_long()) != 0
+        return [[2], [1 if listed else 0], [1 if avail else 0]]
+
+    def m_idx_eq(self, ex, c, a):
+        x = [v.e for v in ex.deref(a[0]).items()]
+        y = [v.e for v in ex.deref(ex.deref(a[1])).items]
+        if len(x) != len(y):
+            return False
+        return zand(*[p == q for p, q in zip(x, y)]) if x else True
+
+    def describe(self, m):
+        parts = [f'{k}={opts[m.eval(v, model_completion=True).as_long() % len(opts)]}' for k, (v, opts) in self.choices.items()]
+        for nm in ('names', 'old', 'new'):
+            if hasattr(self, nm):
+                parts.append(f"{nm}={[m.eval(v, model_completion=True).as_long() for v in getattr(self, nm)]}")
+        if self.mode == 'find':
+            parts.append(f'listed={m.eval(self.listed, model_completion=True)} mask={m.eval(self.mask, model_completion=True)} fileversion={m.eval(self.fv, model_completion=True)}')
+        return ', '.join(parts)
+
+    def prop(self, out, ex):
+        if out[0] == 'panic':
+            self.require(ex, False, 'panic: ' + out[1])
+            return
+        (rs, ps), (rl, pl) = out[1]
+        wl = warnings_of(pl)
+        self.cover('strict accepts' if rs.variant == 'Ok' else 'strict rejects')
+        if rs.variant == 'Ok':
+            self.require(ex, rl.variant == 'Ok' and len(wl) == 0, 'strict accepts what lenient rejects or warns about')
+        else:
+            sl, ssrc = err_parts(rs.fields[0])
+            self.require(ex, self.line_ok(sl), 'strict error names a line outside the document')
+            if rl.variant == 'Ok':
+                self.require(ex, len(wl) > 0, 'lenient silently accepts what strict rejects')
+                if wl:
+                    wline, wsrc = err_parts(wl[0])
+                    self.require(ex, wsrc.variant == ssrc.variant and bool(z3.is_true(z3.simplify(wline.e == sl.e))), 'strict error is not the first lenient warning')
+            else:
+                _, lsrc = err_parts(rl.fields[0])
+                self.require(ex, lsrc.variant == ssrc.variant, 'strict and lenient fail with different hard errors')
+        # no holes
+        if self.mode == 'multiplicity':
+            dup = zor(self.names[2] == self.names[0], self.names[2] == self.names[1])
+            must_reject = self.cmode in ('Sequence', 'Choice') and self.mult in ('One', 'ZeroOrOne')
+            if must_reject:
+                self.require(ex, zor(znot(dup), rs.variant == 'Err'), 'strict loading accepts a repeated single-occurrence sub-element')
+            if rs.variant == 'Err':
+                self.require(ex, zand(dup, must_reject), 'strict loading rejects a sub-element that may be repeated or is not repeated')
+        elif self.mode == 'conflict':
+            different = True if len(self.old) != len(self.new) else znot(zand(*[p == q for p, q in zip(self.old, self.new)]))
+            conflict = self.gmode == 'Choice' and len(self.old) > 0
+            if conflict:
+                self.require(ex, zor(znot(different), rs.variant == 'Err'), 'strict loading accepts two different alternatives of an exclusive choice')
+            if rs.variant == 'Err':
+                self.require(ex, zand(different, conflict), 'strict loading reports a choice conflict where there is none')
+        else:
+            avail = zand(self.listed, (self.mask & self.fv) != 0)
+            self.require(ex, (rs.variant == 'Ok') == avail if isinstance(avail, bool) else (avail if rs.variant == 'Ok' else znot(avail)),
+                         'strict loading accepts a sub-element that is unknown or not available in the file version (or rejects one that is)')
